@@ -22,6 +22,16 @@ prop('C17', True,
      "(scheduling is C01-C03), pickling of task results.",
      "Lean 4 proof (induction over chunking / reduction tree, Int arithmetic for slices) + differential correspondence model-vs-code")
 
+prop('C20', True,
+     "Lean theorems: precedence (command line > configuration file coerced to the default's type > default) for every option whose argparse action "
+     "leaves None when absent; table_absent_none and common_options_uniform are kernel-checked (decide) over the table of EVERY argparse action of "
+     "EVERY subcommand, re-extracted by introspection from the code on every run (a store_true or default= breaks the build); argv_shape; jugdir template "
+     "expansion (expand_literal, expand_default_template). parse() is run against the compiled model on random command lines x ini files x positional "
+     "shapes for all subcommands, plus a malformed stream.",
+     "Modelled, not verified: argparse's own tokenisation (command shape `jug SUB [options] JUGFILE [extra] [-- extra]`), configparser, Python %-formatting "
+     "restricted to %(name)s and %%.",
+     "Lean 4 proof + kernel-checked generated option table (translator) + differential correspondence")
+
 def main():
     checks, na = [], []
     ids = ['C%02d' % i for i in range(1, 21)]
@@ -43,7 +53,7 @@ def main():
             na.append({'property_id': i, 'reason': 'not claimed yet: the Lean model/check for this property is still under construction in this revision (see DESIGN.md section 5); the technique is applicable'})
     m = {
         'version': 1,
-        'setup_cmd': 'cd lean && lake build',
+        'setup_cmd': './tools/setup.sh',
         'hooks': {'guard': 'JUG_VERIF', 'enable': 'none needed: all interposition is installed by the harness at run time (no in-tree hooks)',
                   'baseline_off_cmd': 'cd /repo && /venv/bin/python -m pytest -ra -q -p no:cacheprovider --timeout=900 --continue-on-collection-errors',
                   'source_commits': [], 'add_only': True},
